@@ -3,8 +3,9 @@
 From Coq Require Import String List NArith ZArith Bool Permutation.
 From J5V.lib Require Import Outcome.
 From J5V.model Require Import ReflectDesc ReflectSchema Reflect ReflectOwn ExportForm Export ExportFields ExportApi.
+From J5V.model Require ReflectCorr ExportCorr.
 From J5V.gen Require ReflectGen.
-From J5V.proofs Require Import ReflectProofs ExportProofs ReflectInvProofs ReflectWeakProofs ExportApiProofs.
+From J5V.proofs Require Import ReflectProofs ExportProofs ExportKindProofs ReflectInvProofs ReflectWeakProofs ExportApiProofs.
 Import ListNotations.
 
 Definition entries_of (st : sset) : list (ref * root) :=
@@ -85,6 +86,14 @@ Theorem C15_roundtrip_partial : forall S : list (ref * root),
 Proof. exact export_import_roundtrip. Qed.
 Print Assumptions C15_roundtrip_partial.
 
+Theorem C15_inline_objects_and_oneofs_not_importable :
+  (forall fl rules ext, (exists c, import_field (XObject XInline fl rules ext) = RErr c) /\
+                        (exists c, import_field (XObject XUnset fl rules ext) = RErr c)) /\
+  (forall rules lr ext, (exists c, import_field (XOneof XInline rules lr ext) = RErr c) /\
+                        (exists c, import_field (XOneof XUnset rules lr ext) = RErr c)).
+Proof. exact import_inline_rejected_all. Qed.
+Print Assumptions C15_inline_objects_and_oneofs_not_importable.
+
 (* ---- the conclusion of the full statement over the flat list of exported schemas ([export_set]), for
    EVERY descriptor set: no hypothesis (the former hypothesis wf_keys, distinct split names, is gone: what
    the round trip needs of a reflected set, distinct keys, no placeholder, importable scalar formats,
@@ -100,6 +109,18 @@ Theorem C15_reflected_roundtrip : forall D fs S,
     refs_resolved S' = true.
 Proof. exact reflect_export_import_roundtrip_any. Qed.
 Print Assumptions C15_reflected_roundtrip.
+
+(* "every reference resolved", with kinds: [refs_resolved] asks that a reference names a linked entry; the round
+   trip also cannot change what KIND of schema it leads to. Kinds and (reference, expected kind) pairs are read
+   off the exported form (object field -> object, oneof field -> oneof, enum field -> enum). If every reference
+   of the exported set leads to a root of the expected kind, so does every reference of the rebuilt set.
+   (That a REFLECTED set is kind-correct is the business of C18: paths resolve to fields of the matching kind.) *)
+Theorem C15_roundtrip_keeps_reference_kinds : forall S : list (ref * root),
+  NoDup (map fst S) -> all_importable S -> closed S -> (forall k r, In (k, r) S -> kinded_in S r) ->
+  exists S', import_api (export_entries S) = ROk S' /\ refs_resolved S' = true /\
+    forall k r', lookup S' k = Some (Linked r') -> kinded_st S' r'.
+Proof. exact export_import_keeps_kinds. Qed.
+Print Assumptions C15_roundtrip_keeps_reference_kinds.
 
 (* ---- the package bookkeeping of APIFromImage (getSchemaSet / getPackage / getSubPackage /
    splitPackageParts) and the names PackageSetFromSourceAPI rebuilds ("%s.%s"): splitting a package
@@ -195,3 +216,36 @@ Proof.
   - intros k H. vm_compute in H. repeat (destruct H as [H|H]; [subst k; vm_compute; auto 10|]). destruct H.
   - eexists. split; vm_compute; reflexivity.
 Qed.
+
+(* ---- non-vacuity of the full statement at the API level: a self-recursive and a mutually recursive message
+   with a flattened field and an enum, in a listed package p.v1: APIFromImage succeeds with three schemas,
+   PackageSetFromSourceAPI rebuilds them, and the rebuilt set re-exports to exactly the first export *)
+Definition api_ex_fopts := FOpts None None None None.
+Definition api_ex_desc : desc :=
+  {| d_msgs := [
+       Msg (bytes "p.v1.Node") (bytes "p.v1") [bytes "Node"]
+         [Fld (bytes "next") (bytes "next") 1 KMessage CSingle None (TMsg (bytes "p.v1.Node")) api_ex_fopts [];
+          Fld (bytes "peer") (bytes "peer") 2 KMessage CRepeated None (TMsg (bytes "p.v1.Peer")) api_ex_fopts [];
+          Fld (bytes "kind") (bytes "kind") 4 KEnum CSingle None (TEnum (bytes "p.v1.Kind")) api_ex_fopts []]
+         [] None None [];
+       Msg (bytes "p.v1.Peer") (bytes "p.v1") [bytes "Peer"]
+         [Fld (bytes "node") (bytes "node") 1 KMessage CSingle None (TMsg (bytes "p.v1.Node"))
+              (FOpts None None (Some (JObject true)) None) []]
+         [] None None []];
+     d_enums := [Enum (bytes "p.v1.Kind") (bytes "p.v1") [bytes "Kind"]
+                   [EnumVal (bytes "KIND_UNSPECIFIED") 0 None []; EnumVal (bytes "KIND_A") 1 None []] None []];
+     d_files := [File (bytes "p/v1/a.proto") (bytes "p.v1") [bytes "p.v1.Node"; bytes "p.v1.Peer"] [bytes "p.v1.Kind"]] |}.
+Definition api_ex_api : xapi :=
+  match api_from_image api_ex_desc [] [bytes "p.v1"] (d_files api_ex_desc) with Ok a => a | _ => [] end.
+Definition api_ex_set : sset := match import_packages api_ex_api with ROk s => s | RErr _ => [] end.
+
+Example C15_example_api :
+  api_from_image api_ex_desc [] [bytes "p.v1"] (d_files api_ex_desc) = Ok api_ex_api /\
+  length (api_entries api_ex_api) = 3%nat /\
+  import_packages api_ex_api = ROk api_ex_set /\ length api_ex_set = 3%nat /\
+  forallb (fun kx => match lookup api_ex_set (fst kx) with
+                     | Some (Linked r') => ExportCorr.xroot_eqb (export_root r') (snd kx)
+                     | _ => false
+                     end) (api_entries api_ex_api) = true /\
+  refs_resolved api_ex_set = true.
+Proof. repeat split; vm_compute; reflexivity. Qed.
